@@ -1087,7 +1087,8 @@ def translate(repo):
             ent["error"] = str(e)
             errors.append(f"{rel}: {e}")
         types.append(ent)
-    return {"ok": not errors, "errors": errors, "types": types, "repo": repo}
+    return {"ok": not errors, "errors": errors, "types": types, "repo": repo,
+            "rdatatype_members": sorted(set(world.rdatatypes.values()))}
 
 
 # ----------------------------------------------------------------------------- Coq output
